@@ -590,6 +590,7 @@ def check_size_agreement(ctx, unit, classes, rule="O3.size-agreement"):
 def check_const_subscripts(ctx, unit, classes, rule="B1.const-subscript"):
     ctx.rule(rule, "every constant subscript of a fixed-extent member array is < extent (== extent only directly under &)", len(classes))
     for cls in classes:
+        cls_cnt = 0
         for rec in recs_of(unit, cls):
             ext = {fl["n"]: int(fl["extent"]) for fl in rec["fields"] if fl.get("extent")}
             if not ext:
@@ -611,8 +612,9 @@ def check_const_subscripts(ctx, unit, classes, rule="B1.const-subscript"):
                     ok = 0 <= c < ext[bp[-1]] or (under_addr and c == ext[bp[-1]])
                     ctx.inst(rule, "%s::%s%s: %s[%d] #%d" % (cls, f.name, " const" if f.get("const") else "", bp[-1], c, k),
                              ok, n.loc, "index %d, extent %d%s (instantiation %s)" % (c, ext[bp[-1]], ", address only" if under_addr else "", rec["qn"]), f)
-            if cnt == 0:
-                ctx.broken("%s: no constant subscripts found" % rec["qn"])
+            cls_cnt += cnt        # implicit (partial) instantiations may have none of the accessors with constant subscripts
+        if cls_cnt == 0:
+            ctx.broken("%s: no constant subscripts found in any instantiation" % cls)
 
 
 # ---- small_vector: inline / heap selection ---------------------------------------------------------
